@@ -129,21 +129,30 @@ func W[T any](site uint32, p *T) {
 	}
 }
 
+// mapID is the identity of a map (its header pointer). The pointer is made to
+// escape: a non-escaping small map lives on the goroutine STACK, and stack memory
+// is recycled between goroutines when stacks grow, which would fake a conflict.
 func mapID[M ~map[K]V, K comparable, V any](m M) uintptr {
-	return uintptr(*(*unsafe.Pointer)(unsafe.Pointer(&m)))
+	p := *(*unsafe.Pointer)(unsafe.Pointer(&m))
+	if leak {
+		sink = p
+	}
+	return uintptr(p)
 }
 
 func accMap(site uint32, id uintptr, write bool) { access(site, id, write, true) }
 
 // RM records a read of (some element of) map m; WM a write (insert, update, delete, clear).
 func RM[M ~map[K]V, K comparable, V any](site uint32, m M) {
+	id := mapID(m)
 	if accActive {
-		access(site, mapID(m), false, true)
+		access(site, id, false, true)
 	}
 }
 func WM[M ~map[K]V, K comparable, V any](site uint32, m M) {
+	id := mapID(m)
 	if accActive {
-		access(site, mapID(m), true, true)
+		access(site, id, true, true)
 	}
 }
 
